@@ -69,6 +69,8 @@ def gen_C02(tier, seed, unit, nunits):
         k = scale(tier, 30, 300)
         pairs = [(rng.choice(E), rng.choice(E)) for _ in range(k)] + \
                 [(G.rand_val(rng, s, n, f, E), G.rand_val(rng, s, n, f, E)) for _ in range(k)]
+        Cc = G.crit(s, n, f)
+        pairs += [(a, b) for a in Cc for b in Cc]
         # sums/differences at the range ends
         for _ in range(k):
             a = G.rand_val(rng, s, n, f, E)
